@@ -46,4 +46,7 @@ Fold2(c, s, x) ==
                            inflight |-> f.maxin, drop |-> f.drop]>>]
           ELSE [st |-> f, out |-> <<>>]
 
+(* ---- the traced wrapper (limit/traced.go): every sample goes to the delegate at once, unchanged (C16) ---- *)
+FoldTraced(c, s, x) == [st |-> s, out |-> <<[rtt |-> x.rtt, inflight |-> x.inflight, drop |-> x.drop]>>]
+
 =================================================================================
